@@ -10,6 +10,7 @@ from props import c01_gen as G
 from props import c01_gen2 as G2
 from props import c01_gen3 as G3
 from props import c01_gen4 as G4
+from props import c01_gen5 as G5
 
 F = fractions.Fraction
 PID = 'C01'
@@ -59,6 +60,11 @@ RULE = ('template trees over 13 node kinds (constant, table hold/jump/linear, po
         'not start at program time 0 (later pass of a repetition / loop, later sequence member, inside a reversal, renamed / dropped '
         'channel, under scalar arithmetic, dyadic and decimal durations), judged against the equivalent tree of modelled node kinds; '
         'every input of the known-finding class par-under-transformation once more for the model comparison alone.  '
+        'Round 6 (c01_gen5): family wfpart = ArithmeticAtomicPT whose operand is dropped completely / partly by the channel mapping '
+        '(negation wrapper, subsets; 14 recipes) x way of dropping x 10 positions (alone, later sequence member, repetition, loop, '
+        'reversal, under scalar arithmetic / a parallel channel, renamed, decimal durations); family sweep = a parameter sweep over '
+        'one template object whose sampled arrays are kept while the programs are dropped (4 value sets x 5 one after the other, or '
+        'x 8 alive together), then the judged values.  '
         'Non-trivial = tree with >= 3 nodes that instantiates to a program.')
 TRUSTED = [
     'Coq 8.16.1 kernel + vm_compute (no native_compute)',
@@ -71,6 +77,8 @@ TRUSTED = [
     'family tdep: the translation of a time dependent ParallelChannelPT value / ArithmeticPT scalar into an equivalent tree '
     '(FunctionPT of the atom\'s duration inside AtomicMultiChannelPT / ArithmeticAtomicPT) is harness code; the Coq model has no '
     'time dependent transformation step',
+    'family sweep: the inputs are deterministic, but whether a defect keyed by object identity shows depends on CPython handing the '
+    'address of a dead waveform to a new one (measured with seeded change C01-10: 26-33 of 64 cases)',
 ]
 ASSUMPTIONS = [
     'generated numbers are dyadic with small numerators so that numpy float arithmetic is exact (all streams but the decimal one)',
@@ -147,6 +155,11 @@ def gen_cases(rng, tier, ctx):
     # round 5: time dependent transformation values (ParallelChannelPT value / ArithmeticPT scalar containing t) on atoms that
     # do not start at program time 0; judged against the equivalent tree of modelled node kinds (see c01_gen4)
     cases.extend(G4.gen_tdep_cases(rng, tier))
+    # round 6: wrapper waveforms that only a particular atom recipe x channel mapping produces (negation of a pulse whose
+    # left operand is dropped, subsets, ...) as parts of sequences / repetitions / loops / reversals (see c01_gen5)
+    cases.extend(G5.gen_wfpart_cases(rng, tier))
+    # round 6: parameter sweeps whose sampled arrays outlive the programs they came from (history; see c01_gen5)
+    cases.extend(G5.gen_sweep_cases(rng, tier))
     for c in rng.sample(base, 30 if tier == 'quick' else 200):
         c2 = dict(c)
         c2['warm'] = {k: str(F(v) + rng.choice([F(1), F(-1), F(1, 2)])) for k, v in c['params'].items()}
@@ -341,21 +354,42 @@ def run_impl(case):
         if case.get('as_scope'):           # the parameters arrive as a Scope object instead of a dict
             from qupulse.parameter_scope import DictScope
             params = DictScope.from_kwargs(**(params or {}))
-        if 'warm' in case:                 # the same template object is instantiated (and sampled) with other values first
+        # history: the same template object is instantiated with other values first, each program is sampled (also on the
+        # grid of the check, without output array) and DROPPED while the sampled arrays stay referenced (`keep`) until the
+        # case is over.  `warm`: one earlier assignment; `sweep` (round 6): several, durations unchanged
+        # `sweep_hold` = n: the sweep is run n times and ALL its programs / waveforms stay alive until the last pass is over, then
+        # they are dropped together (many dead objects whose results are still referenced when the judged pass starts)
+        # a `sweep` case runs its JUDGED pass as the last iteration of the same loop (as a parameter sweep in a comprehension does:
+        # identical allocation pattern in every pass, so CPython hands the address of a dead waveform to the next one)
+        keep, alive = [], []
+        hist = [{k: _num(v) for k, v in wv.items()} for wv in
+                ([case['warm']] if 'warm' in case else []) + list(case.get('sweep', [])) * int(case.get('sweep_hold') or case.get('sweep_times', 1))]
+        if 'sweep' in case:
+            hist.append(params)
+        objs = w = prog = None
+        sweep_error = None
+        for j, wv in enumerate(hist):
+            objs = None
+            if j == len(hist) - 1:
+                del alive[:]
             try:
                 with vlib.time_limit(30):
-                    wp = pt.create_program(parameters={k: _num(v) for k, v in case['warm'].items()}, channel_mapping=cm)
-                    if wp is not None:
-                        ww = to_waveform(wp)
-                        for ch in ww.defined_channels:
-                            ww.get_sampled(ch, np.linspace(0., float(ww.duration), 7))
+                    arrays, objs = _history_pass(pt, wv, cm, case)
+                    keep.append(arrays)
+                    if case.get('sweep_hold'):
+                        alive.append(objs)
             except vlib.Timeout:
                 return {'hang': True}
-            except Exception:
-                pass
+            except Exception as e:
+                sweep_error = e
         try:
             with vlib.time_limit(30):
-                prog = pt.create_program(parameters=params, channel_mapping=cm)
+                if 'sweep' in case:
+                    if objs is None:
+                        return {'crash': 'sweep: the judged pass failed: %r' % (sweep_error,)}
+                    prog, w = objs
+                else:
+                    prog = pt.create_program(parameters=params, channel_mapping=cm)
         except vlib.Timeout:
             return {'hang': True}
         except (ParameterNotProvidedException, ExpressionVariableMissingException):
@@ -368,10 +402,10 @@ def run_impl(case):
             return {'crash': 'create_program: %s: %s' % (type(e).__name__, str(e)[:200])}
         if prog is None:
             return {'none': True}
-        w = None
         try:
             with vlib.time_limit(30):
-                w = to_waveform(prog)
+                if w is None:
+                    w = to_waveform(prog)
                 dur = vlib.to_fraction(w.duration)
                 # decimal stream: the grid comes with the case (exact junctions + interior points); the code is asked for
                 # the correctly rounded doubles of these rationals
@@ -427,6 +461,31 @@ def run_impl(case):
             if w is None and isinstance(e, ValueError):
                 return {'unplayable': str(e)[:120]}        # to_waveform(program) rejects the program
             return {'crash': 'sampling: %s: %s' % (type(e).__name__, str(e)[:200])}
+
+
+def _instantiate(pt, params, cm):
+    """program and waveform; history passes and the judged pass of a `sweep` case go through the same code (same allocation
+    pattern: CPython then hands the blocks of the dead objects to the new ones)"""
+    from qupulse.program.loop import to_waveform
+    prog = pt.create_program(parameters=params, channel_mapping=cm)
+    return prog, (None if prog is None else to_waveform(prog))
+
+
+def _history_pass(pt, params, cm, case):
+    """instantiate, sample every channel, return the sampled arrays and the objects (the caller decides when they die)"""
+    import numpy as np
+    from qupulse.program.loop import to_waveform
+    prog, w = _instantiate(pt, params, cm)
+    if prog is None:
+        return [], None
+    dur = vlib.to_fraction(w.duration)
+    ts = [F(t) for t in case['grid']] if 'grid' in case else grid_for(dur)
+    arr = np.array([float(t) for t in ts])
+    chans = sorted(w.defined_channels, key=lambda c: (isinstance(c, str), c))
+    out = [w.get_sampled(ch, np.linspace(0., float(w.duration), 7)) for ch in chans]
+    out += [w.get_sampled(ch, arr * 0.5) for ch in chans]
+    out += [w.get_sampled(ch, arr) for ch in chans]
+    return out, (prog, w)
 
 
 def _render_obs(prog, w, chans, dur, grid):
@@ -697,7 +756,7 @@ def histogram_keys(case, obs):
             keys.append('dec-rate:%s' % r)
         if obs.get('render_off_grid'):
             keys.append('dec-render-linspace-off-by-ulp')
-    for tag in ('selfmap', 'alias', 'dropped', 'tname_shape', 'multizero', 'dec_form', 'nptypes', 'nearint', 'tdep', 'tdep_shape'):
+    for tag in ('selfmap', 'alias', 'dropped', 'tname_shape', 'multizero', 'dec_form', 'nptypes', 'nearint', 'tdep', 'tdep_shape', 'wfpart', 'wfpart_shape', 'sweep_tag'):
         if tag in case:
             keys.append('%s:%s' % (tag, case[tag]))
     for tag in ('tname', 'warm', 'top_none', 'idx_rebound', 'multi_zero', 'dec_inner', 'numobj', 'as_scope', 'edge'):
@@ -932,13 +991,19 @@ MANIFEST = {
                   'point on the mirrored entry with the earlier segment. Round 5 (audit): C01_sampled_denotes_partial composes '
                   'the two halves (get_sampled of to_waveform(program) = denotation; hypotheses: to_waveform succeeds, channel '
                   'membership); C01_arith_meaning / C01_par_values_last tie the operator tables that the denotation shares with '
-                  'the model to plain arithmetic. Tested only, not proved: "no sample is NaN"; time dependent transformation '
+                  'the model to plain arithmetic. Round 6: "no sample is NaN" is a theorem: C01_denotation_total (the denotation is '
+                  'defined at every time of [0, total) on every channel all its pieces carry; Spec level, every node and atom kind, '
+                  'no guard) and C01_no_nan (under the guards of C01_denotes the model\'s program plays a number, the denoted one, at '
+                  'every t in [0, duration)). New families wfpart (seeded change C01-9: negation wrapper of a dropped operand loses its '
+                  'sign as a part of a sequence) and sweep (seeded change C01-10: result cache keyed by object identity). '
+                  'Tested only, not proved: time dependent transformation '
                   'values (family tdep, judged against an equivalent tree built by the harness; seeded change C01-7).',
     'level_note': 'The guards exclude more than the findings they are named after: guard_C01_par_order every ParallelChannelPT below '
                   'a transformation node (also when the outer node leaves its channels alone), guard_C01_tables also zero-length '
                   'linear entries, FunctionPT of non-positive duration and triple final time points outside time reversal. '
                   'C01_denotes_relative_partial / C01_compositional / C01_compositional2 / C01_emission / C01_junctions are lemma-level '
-                  '(semantic hypotheses, discharged inside C01_denotes). Inputs flagged table-final-triple are excused from both '
+                  '(semantic hypotheses, discharged inside C01_denotes). C01_no_nan is about the model\'s program (play) and keeps the '
+                  'channel hypothesis of C01_denotes (a channel that every piece carries). Inputs flagged table-final-triple are excused from both '
                   'oracles. '
                   '_partial: C01_sampling_partial assumes that to_waveform succeeds (guaranteed by qupulse constructors '
                   'for well-formed templates, not by the model). ArithmeticAtomicPT with an operand of duration 0 plays the '
